@@ -35,6 +35,10 @@ type Plan struct {
 type Segment struct {
 	Task int   // task index
 	N    int64 // run it for N yields (or until it finishes or blocks)
+	// Op >= 0: N is relative to an operation: the segment ends at the N-th yield the task
+	// executes inside its operation Op (yield 1 is the operation-boundary yield), or when
+	// the task gets past that operation.  Op < 0: N counts every yield of the segment.
+	Op int
 }
 
 type Schedule struct {
@@ -115,6 +119,8 @@ type sim struct {
 	lit     *Schedule // literal schedule (nil: seeded)
 	litSeg  int
 	litLeft int64
+	litOp   int
+	litN    int64
 	litGC   int
 	rng     *rng
 	cfg     stratCfg
@@ -215,6 +221,13 @@ func (s *sim) yield(t *task, site uint32) {
 			s.litGC++
 		}
 		s.litLeft--
+		if s.litOp >= 0 {
+			// operation-relative segment
+			s.litLeft = 1
+			if t.opIdx > s.litOp || (t.opIdx == s.litOp && t.opSteps >= s.litN) {
+				s.litLeft = 0
+			}
+		}
 		if s.litLeft <= 0 {
 			if u := s.nextLiteral(t, false); u != nil && u != t {
 				s.switchTo(t, u)
@@ -332,10 +345,12 @@ func (s *sim) nextLiteral(t *task, leaving bool) *task {
 			continue
 		}
 		s.litLeft = seg.N
+		s.litOp, s.litN = seg.Op, seg.N
 		return u
 	}
 	// schedule exhausted: run the remaining tasks to completion in index order
 	s.litLeft = 1 << 62
+	s.litOp = -1
 	if !leaving && s.eligible(t) {
 		return t
 	}
@@ -355,7 +370,7 @@ func (s *sim) endSegment(t *task, leaving bool) {
 	if leaving {
 		n++
 	}
-	s.rec.Segs = append(s.rec.Segs, Segment{Task: t.id, N: n})
+	s.rec.Segs = append(s.rec.Segs, Segment{Task: t.id, N: n, Op: -1})
 	s.segStart = s.step
 }
 
@@ -507,6 +522,7 @@ func (s *sim) taskMain(t *task, outcomes [][]uint64, texts [][]string) {
 	}
 	for i := range t.plan.Ops {
 		t.opIdx = i
+		t.opSteps = 0
 		s.yield(t, siteBoundary)
 		s.checkOneRetained(t)
 		op := &t.plan.Ops[i]
@@ -550,7 +566,6 @@ func (s *sim) doOp(t *task, i int, op *OpPlan, outcomes [][]uint64, texts [][]st
 		s.faults["shared-read"]++
 	}
 	t.inOp = true
-	t.opSteps = 0
 	res := runOp(op.Key, sh, s.wantText)
 	t.inOp = false
 	outcomes[t.id][i] = res.hash
@@ -640,7 +655,7 @@ func (s *sim) checkRetained(r *retained, when string) bool {
 // execRun executes one plan under one schedule source.
 func execRun(plan *Plan, o execOpts) *runResult {
 	s := &sim{plan: plan, refs: o.refs, lit: o.lit, rng: o.rng, cfg: o.cfg, faults: map[string]int{},
-		doneCh: make(chan struct{}, len(plan.Tasks)+1), logHash: fnvOff, sigHash: fnvOff, wantText: o.wantText}
+		doneCh: make(chan struct{}, len(plan.Tasks)+1), logHash: fnvOff, sigHash: fnvOff, wantText: o.wantText, litOp: -1}
 	if s.cfg.Gran == 0 {
 		s.cfg.Gran = 0xff
 	}
